@@ -29,6 +29,25 @@ def apalache_frag(ctx):
     return []
 
 
+def apalache_sink(ctx):
+    """Unbounded design-level strengthening of C13: the inductive invariant of spec/SinkInd.tla (prefix, error iff
+    failure, short writes harmless) and the action invariant Silent (nothing reaches the sink after a failure) are
+    discharged by Apalache for files of any length and buffers of any size."""
+    import subprocess, os, shutil
+    from . import core
+    wd = os.path.join(ctx.work, 'apalache_sink')
+    shutil.rmtree(wd, ignore_errors=True)
+    os.makedirs(wd)
+    spec = os.path.join(ctx.spec, 'SinkInd.tla')
+    for args in (['--init=Init', '--inv=IndInv', '--length=0'], ['--init=IndInit', '--inv=IndInv', '--length=1'], ['--init=IndInit', '--inv=Silent', '--length=1']):
+        p = subprocess.run(['timeout', '600', 'apalache-mc', 'check'] + args + [spec], cwd=wd, stdout=subprocess.PIPE, stderr=subprocess.STDOUT, text=True)
+        if 'EXITCODE: OK' not in p.stdout:
+            shutil.rmtree(wd, ignore_errors=True)
+            raise core.ToolError('Apalache did not discharge %s of SinkInd.tla:\n%s' % (' '.join(args), p.stdout[-1500:]))
+    shutil.rmtree(wd, ignore_errors=True)
+    return []
+
+
 def send_witness(ctx):
     """C17 auto-trait clause: decided by rustc while building the witness binary (not by TLC)."""
     import subprocess, os
@@ -74,9 +93,11 @@ PROPS = {
               rule='a case is an input byte string (all strings up to the length bound over {00,01,02,03,FF}, enumerated completely; completeness is itself checked by TLC against the canonical enumeration) or an ADTS header tuple (frame length x protection flag x buffer length x sampling index x channel configuration); non-trivial when it can contain a start code (length >= 3)',
               assumptions=['exhaustive only up to the length bound and over the 5-byte alphabet, which contains every start-code-relevant byte class (00, 01, other low values, a high value)', 'ADTS payloads are recovered from finished files by the independent reader']),
 
-    'C13': _p(lambda t: ['sink'], level='fault_enumeration',
+    'C13': dict(_p(lambda t: ['sink'], level='fault_enumeration',
               rule='a case is a (history, fault schedule) pair: every write-call index x {5 error kinds, Ok(0), Interrupted x1/x3, accept 1, accept n-1, fail-once} and every byte offset of the output as a short-write cut, for representative histories of every layout; non-trivial when the schedule contains a non-full response',
-              assumptions=['fault schedules are enumerated for representative histories (listed in coverage.samples), not for all histories', 'the design-level model MuxideSink.tla is checked for files of 6 abstract bytes and buffers of <= 4']),
+              assumptions=['fault schedules are enumerated for representative histories (listed in coverage.samples), not for all histories', 'the design-level model MuxideSink.tla is checked for files of 6 abstract bytes and buffers of <= 4',
+                           'additionally, the prefix / error-iff-failure / silence-after-failure clauses are proved for files of any length, buffers of any size and any number of Interrupted responses on the counter abstraction spec/SinkInd.tla by an inductive invariant and an action invariant discharged with Apalache (design level)']),
+              pre=apalache_sink, coverage_extra=lambda results: {'apalache_inductive_invariant': {'module': 'SinkInd.tla', 'obligations': 3, 'discharged': 3}}),
 
     'C10': dict(_p(lambda t: ['frag'],
               rule='a case is a write/flush/query/init sequence on a fragmented muxer enumerated by TLC from MCFrag or drawn by the seeded generator; non-trivial when >= 2 segments are emitted',
